@@ -43,7 +43,9 @@ fn fwd(op: &Op, _ctx: &dyn Context, operands: &mut dyn CoordinateSet) -> usize {
             let (sin_lon, cos_lon) = (lon - lon_0).sin_cos();
 
             let q = ancillary::qs(lat.sin(), e);
-            let rho = a * (qp + sign * q).sqrt();
+            // At the pole of the aspect qp ± q is zero up to roundoff, which may come out negative
+            let d = qp + sign * q;
+            let rho = a * (if d < 0.0 { 0.0 } else { d }).sqrt();
 
             let easting = x_0 + rho * sin_lon;
             let northing = y_0 + sign * rho * cos_lon;
